@@ -6,6 +6,7 @@ R = {
  "C04-f": (6, False, "C02 / C04 T4-none-outside-ranges (no Some(..) return of op / r / v / m is reachable for an index > dim, chamber 0 or a chamber > size; path conditions evaluated on all small out-of-range tuples)", "SimpleDSym queried at chamber 0: morphism with base image 0, and fundamental_group's dummy ridge (0,0,0) on symbols with a mirror edge followed by a non-mirror edge at one chamber (covers panic)"),
  "C16-e": (5, False, "C16 T9-reglue-pairs (the literal pair lists handed to reglue are perfect matchings of a chamber set closed under the old operation; op words canonicalised by involution and commutation)", "any input on which fix_local_1_vertex fires (a vertex of degree 1 in a tile): PartialDSet::set panics on the inconsistent gluing"),
  "C17-f": (6, True, "reported by C15 T4-core-type-table (round 5): the decision table of core_type is evaluated for every size / involutive combination; the four-row Z4 case falls into core_type_by_size, which panics", "a core table with four rows and cyclic quotient Z4: low-symmetry symbols from 6 chambers on (2-sheeted covers of a size-3 symbol), every toroidal cover"),
+ "C15-f": (6, False, "C15 T9-flattens-all: the iterator pipeline of degree() is now EVALUATED (templates.eval_pipeline) on model sequences for orders 1..6 in a table of 6 rows instead of matched by shape", "a cone word whose order equals the number of rows of the candidate table: cyclic quotients z4 / z6 (6-chamber covers of the cube and hexagonal-prism tilings)"),
  "C19-f": (6, True, "", "undirected vertex cut called with source > sink numerically"),
  "C07-f": (6, True, "", "non-negative base curvature, an orbit with r >= 3 raised from v = 1 to 2 while an orbit with r <= 2 stays at its minimum: 11 D-sets up to size 7"),
  "C08-f": (6, True, "", "bad orbifolds (tear-drop / spindle): is_euclidean true although curvature is positive"),
